@@ -22,8 +22,8 @@ PROPS = {
         ],
     },
     'C08': {
-        'units': ['unify'],
-        'functions': [],
+        'units': ['unify', 'subst'],
+        'functions': ['substitution_set.rs::get_ground_term', 'substitution_set.rs::is_ground_variable'],
         'oracles': {'*': 'c08_cycle'},
         'not_covered': ['termination of replace_variables / Display (they recurse through structures)'],
     },
@@ -34,8 +34,8 @@ PROPS = {
         'not_covered': ['programs using $_ in heads and bodies: the solver is outside reach; the clause covers every unify call, hence every position, by modularity'],
     },
     'C13': {
-        'units': ['unify'],
-        'functions': [],
+        'units': ['unify', 'functions'],
+        'functions': ['built_in_functions.rs::unify_sfunction'],
         'oracles': {'*': 'c13_function'},
         'not_covered': [],
     },
